@@ -187,6 +187,18 @@ func genC06(r *Rng, tier string, emit func(Case)) {
 			}
 		}
 	}
+	// every decoded length 0..45 with a recomputed checksum, payload marker bytes 0x01 / other
+	for ln := 0; ln <= 41; ln++ {
+		for _, last := range []byte{0x01, 0x00} {
+			b := r.Bytes(ln)
+			if ln > 0 {
+				b[0] = 128
+				b[ln-1] = last
+			}
+			full := append(append([]byte{}, b...), chainhash.DoubleHashB(b)[:4]...)
+			e("wifdec", "len:"+itoa(ln+4), hs(base58.Encode(full)))
+		}
+	}
 	e("wifnil", "nonet", hx(genScalar(r)), b2s(r.Bool()))
 	// edge scalars
 	for _, k := range [][]byte{make([]byte, 32), secpN, bytesFF(32)} {
